@@ -23,3 +23,11 @@ package service
 //@   by IterateExpiredRequestBatch#1:closed: inv:closed, inv:untouched, inv:done, inv:none_added, inv:pos, inv:todo, inv:inv
 //@   nopanic
 //@ end
+
+// Zero-height export preparation: nothing leaves the deposit escrow and no binding changes (the bindings are exported
+// with their recorded deposits, which the deposit escrow must still back on the restarted chain: C07, C12).
+//@ func PrepForZeroHeightGenesis(ctx, k)
+//@   property C07, C12
+//@   modifies bal, contexts
+//@   ensures deposit_escrow_kept: forall d:Str :: bal(keeper.DEP, d) >= old(bal(keeper.DEP, d))
+//@ end
